@@ -4,7 +4,7 @@
    markdown-it it collects the definitions of the *whole text* (outside fences) before it
    produces the inline content, and it records them in the environment it returns. *)
 From Coq Require Import List Arith NArith Bool.
-From MV Require Import Base.PyStr Base.Res Nest.Lines Nest.Split Nest.Nest.
+From MV Require Import Base.PyStr Base.Res Nest.Lines Nest.Split Nest.Fence Nest.Nest.
 Import ListNotations.
 Open Scope N_scope.
 
@@ -16,15 +16,7 @@ Definition k_para : N := 1.
 Definition k_link : N := 2.     (* resolved reference *)
 Definition k_text : N := 3.     (* literal text *)
 
-(* lines up to (not including) the closing ``` ; the rest after it *)
-Fixpoint break_close (ls : list str) : list str * list str :=
-  match ls with
-  | [] => ([], [])
-  | l :: r => if str_eqb l bt3 then ([], r)
-              else let '(b, rest) := break_close r in (l :: b, rest)
-  end.
-
-(* pass 1: is "D" among the lines outside fences? *)
+(* pass 1: is "D" among the lines outside fences?  Fences are detected by Fence.parse_fence. *)
 Fixpoint toy_defs (fuel : nat) (ls : list str) : bool :=
   match fuel with
   | O => false
@@ -32,8 +24,10 @@ Fixpoint toy_defs (fuel : nat) (ls : list str) : bool :=
       match ls with
       | [] => false
       | l :: r =>
-          if startswith l bt3 then toy_defs f (snd (break_close r))
-          else str_eqb l l_D || toy_defs f r
+          match parse_fence ls with
+          | Some fe => toy_defs f (fe_rest fe)
+          | None => str_eqb l l_D || toy_defs f r
+          end
       end
   end.
 
@@ -45,21 +39,23 @@ Fixpoint toy_scan (fuel : nat) (defined : bool) (ls : list str) (i : N) : list t
       match ls with
       | [] => []
       | l :: r =>
-          if startswith l bt3 then
-            let '(body, rest) := break_close r in
-            let n := N.of_nat (length body) + 2 in
-            TFence false (skipn 3 l) (unlines body) (Some (i, i + n)) :: toy_scan f defined rest (i + n)
-          else if str_eqb l l_D then toy_scan f defined r (i + 1)
-          else if is_nil l then toy_scan f defined r (i + 1)
-          else
-            TCont k_para l (Some (i, i + 1))
-              [TLeaf (if str_eqb l l_U && defined then k_link else k_text) l (Some (i, i + 1))]
-            :: toy_scan f defined r (i + 1)
+          match parse_fence ls with
+          | Some fe =>
+              TFence (fe_colon fe) (fe_info fe) (fe_content fe) (Some (i, i + fe_lines fe))
+              :: toy_scan f defined (fe_rest fe) (i + fe_lines fe)
+          | None =>
+              if str_eqb l l_D then toy_scan f defined r (i + 1)
+              else if is_nil l then toy_scan f defined r (i + 1)
+              else
+                TCont k_para l (Some (i, i + 1))
+                  [TLeaf (if str_eqb l l_U && defined then k_link else k_text) l (Some (i, i + 1))]
+                :: toy_scan f defined r (i + 1)
+          end
       end
   end.
 
 Definition toy_P (e : bool) (text : str) : list tok * bool :=
-  let ls := splitlines text in
+  let ls := split_lines text in
   let defined := e || toy_defs (S (length ls)) ls in
   (toy_scan (S (length ls)) defined ls 0, defined).
 
